@@ -8,6 +8,9 @@ package main
 //              start/middle/tag/end of every block; truncate at every structural offset; drop, swap,
 //              duplicate whole blocks; append; wrong passphrase): Get must return an error or the
 //              exact bytes, never different bytes
+//   aligned    the corrupt sweep on contents constructed so that a sealed-block boundary (after 1, 2, 3 blocks)
+//              coincides with an LZ4 data-block boundary (o_store_aligned.go): there a damaged later block is an
+//              error only because the reader goroutine reports the decrypt failure as an error
 //   lz4align   a message whose LZ4 frame has a data-block boundary exactly at the first AES block
 //              boundary, file cut there (finding C09-F2)
 //   craftswap  a message stored uncompressed with plausible LZ4 block headers at the right offsets,
@@ -166,7 +169,8 @@ func (o *c09Run) roundtrip(kind string, n int, seed uint64) {
 	o.res.DistinctNontrivial++
 	o.inc("roundtrip." + kind)
 	if f, err := os.ReadFile(env.path(id)); err == nil {
-		nb := (len(f) - storeHeaderLen - storeNonceLen + storeBlockSize + storeOverhead - 1) / (storeBlockSize + storeOverhead)
+		fm := c09Fmt()
+		nb := (len(f) - fm.headerLen - fm.nonceLen + fm.blockSize + fm.overhead - 1) / (fm.blockSize + fm.overhead)
 		o.inc(fmt.Sprintf("roundtrip.blocks=%d", nb))
 		if !bytes.HasPrefix(f, append([]byte("GLUON-CACHE"), 1, 0, 0, 0)) {
 			o.violate("header-constant", "stored file does not start with GLUON-CACHE\\x01\\x00\\x00\\x00", args)
@@ -175,6 +179,7 @@ func (o *c09Run) roundtrip(kind string, n int, seed uint64) {
 }
 
 func (o *c09Run) roundtrips(thorough bool) {
+	storeBlockSize := c09Fmt().blockSize
 	lens := []int{0, 1, 15, 16, 17, 255, 4095, 4096, 4097}
 	kmax, bmax := 3, 2
 	big := []int{3 << 20}
@@ -209,13 +214,14 @@ func (o *c09Run) roundtrips(thorough bool) {
 // ---- corrupt -----------------------------------------------------------------------------------
 
 func c09SplitBlocks(f []byte) (head []byte, blocks [][]byte) {
-	hn := storeHeaderLen + storeNonceLen
+	fm := c09Fmt()
+	hn := fm.headerLen + fm.nonceLen
 	if len(f) < hn {
 		return f, nil
 	}
 	head = f[:hn]
 	body := f[hn:]
-	enc := storeBlockSize + storeOverhead
+	enc := fm.blockSize + fm.overhead
 	for len(body) > 0 {
 		k := enc
 		if k > len(body) {
@@ -295,7 +301,9 @@ func c09Scan(s, format string, args ...interface{}) bool {
 func c09MutationsFor(f []byte) []string {
 	var muts []string
 	add := func(format string, a ...interface{}) { muts = append(muts, fmt.Sprintf(format, a...)) }
-	hn := storeHeaderLen + storeNonceLen
+	fm := c09Fmt()
+	storeOverhead, storeBlockSize := fm.overhead, fm.blockSize
+	hn := fm.headerLen + fm.nonceLen
 	for i := 0; i < hn; i++ {
 		add("flip:%d", i)
 		add("trunc:%d", i)
@@ -360,8 +368,21 @@ func (o *c09Run) corruptOne(kind string, n int, seed uint64, mut string) {
 
 func (o *c09Run) corruptIn(env *c09Env, kind string, n int, seed uint64, mut string, orig []byte) {
 	b := c09Content(kind, n, seed)
-	id := storeID(1)
 	args := fmt.Sprintf("-case corrupt -kind %s -len %d -cseed %d -mut %s", kind, n, seed, mut)
+	o.corruptBytes(env, b, "kind "+kind, args, "corrupt", mut, orig)
+}
+
+// corruptBytes: content b is (or gets) stored, the file is altered by `mut`, Get must answer an error or b.
+// Different bytes without an error are labelled by cause:
+//   C09-F1  the file was cut right after the nonce
+//   C09-F2  the file was cut exactly on a sealed-block boundary (no piece is damaged, every kept block opens) and a
+//           non-empty strict prefix came back: the LZ4 reader took the end of the source for the end of the frame
+//   cause=corrupt-later-block-accepted   intact leading blocks, then a piece that is NOT one of the sealed blocks of
+//           the file (flipped bit, block cut short, garbage): that piece cannot open, yet Get returned a prefix
+//   otherwise the kind of mutation (whole sealed blocks rearranged, …)
+func (o *c09Run) corruptBytes(env *c09Env, b []byte, what, args, stat, mut string, orig []byte) {
+	fm := c09Fmt()
+	id := storeID(1)
 	if orig == nil {
 		if err := env.st.Set(id, bytes.NewReader(b)); err != nil {
 			o.violate("roundtrip-set-error", fmt.Sprintf("Set failed: %v", err), args)
@@ -373,18 +394,19 @@ func (o *c09Run) corruptIn(env *c09Env, kind string, n int, seed uint64, mut str
 		}
 		orig = f
 	}
-	var got []byte
+	var got, g []byte
 	var err error
 	if mut == "pass" {
+		g = orig
 		if werr := os.WriteFile(env.path(id), orig, 0o600); werr != nil {
 			panic(werr)
 		}
 		other := openVerifStore(env.dir, 1)
 		got, err = other.Get(id)
 	} else {
-		g := c09ApplyMutation(orig, mut)
+		g = c09ApplyMutation(orig, mut)
 		if g == nil {
-			o.inc("corrupt.not-applicable")
+			o.inc(stat + ".not-applicable")
 			return
 		}
 		if werr := os.WriteFile(env.path(id), g, 0o600); werr != nil {
@@ -396,22 +418,46 @@ func (o *c09Run) corruptIn(env *c09Env, kind string, n int, seed uint64, mut str
 	cls := c09MutClass(mut)
 	switch {
 	case err != nil:
-		o.inc("corrupt." + cls + ".error")
+		o.inc(stat + "." + cls + ".error")
 		o.res.DistinctNontrivial++
 	case bytes.Equal(got, b):
-		o.inc("corrupt." + cls + ".exact-bytes")
+		o.inc(stat + "." + cls + ".exact-bytes")
 	default:
-		hn := storeHeaderLen + storeNonceLen
+		hn := fm.headerLen + fm.nonceLen
+		enc := fm.blockSize + fm.overhead
 		_, blocks := c09SplitBlocks(orig)
-		class := "C09-altered-file-different-bytes " + cls
-		var a int
-		if c09Scan(mut, "trunc:%d", &a) && a == hn {
-			class = "C09-F1 truncate-after-nonce"
-		} else if (cls == "trunc" || cls == "drop") && len(got) > 0 && bytes.HasPrefix(b, got) {
-			class = "C09-F2 truncate-at-lz4-block-boundary"
+		_, gblocks := c09SplitBlocks(g)
+		// first piece of the altered file that is not the block the stored file has there
+		first := 0
+		for first < len(gblocks) && first < len(blocks) && bytes.Equal(gblocks[first], blocks[first]) {
+			first++
 		}
-		o.violate(class, fmt.Sprintf("stored %d bytes (kind %s, %d blocks, file %d bytes); after %s Get returned %d bytes %s and no error",
-			len(b), kind, len(blocks), len(orig), mut, len(got), c09Relation(got, b)), args)
+		damaged := false // … and is not a sealed block of the stored file at all
+		if mut != "pass" && first < len(gblocks) && len(g) >= hn && bytes.Equal(g[:hn], orig[:hn]) {
+			damaged = true
+			for _, ob := range blocks {
+				if bytes.Equal(ob, gblocks[first]) {
+					damaged = false
+				}
+			}
+		}
+		cutOnBoundary := mut != "pass" && len(g) > hn && len(g) < len(orig) && bytes.HasPrefix(orig, g) && (len(g)-hn)%enc == 0
+		strictPrefix := len(got) < len(b) && bytes.HasPrefix(b, got)
+		class := "C09-altered-file-different-bytes " + cls
+		extra := ""
+		switch {
+		case mut != "pass" && len(g) == hn && bytes.HasPrefix(orig, g):
+			class = "C09-F1 truncate-after-nonce"
+		case cutOnBoundary && strictPrefix && len(got) > 0:
+			class = "C09-F2 truncate-at-lz4-block-boundary"
+		case damaged && first >= 1 && strictPrefix:
+			class = "C09-altered-file-different-bytes cause=corrupt-later-block-accepted"
+			extra = fmt.Sprintf("; sealed blocks 0..%d are intact, the piece at block index %d (file offset %d, %d bytes) is not a sealed block of this file and cannot open, "+
+				"yet no error was reported: the decrypt failure reached the LZ4 reader as a plain end of data (Lean: C09.alteration_detected_partial, C09.open_failure_is_pipe_error)",
+				first-1, first, hn+first*enc, len(gblocks[first]))
+		}
+		o.violate(class, fmt.Sprintf("stored %d bytes (%s, %d blocks, file %d bytes); after %s Get returned %d bytes %s and no error%s",
+			len(b), what, len(blocks), len(orig), mut, len(got), c09Relation(got, b), extra), args)
 	}
 }
 
@@ -442,7 +488,7 @@ func (o *c09Run) corruptions(thorough bool) {
 		{"r", 1100000, 9}, // 5 blocks
 	}
 	if thorough {
-		bases = append(bases, c09Base{"m", 2400000, 10}, c09Base{"r", c09TuneRandomLen(11, 2*storeBlockSize), 11}, c09Base{"r", 5 << 20, 12})
+		bases = append(bases, c09Base{"m", 2400000, 10}, c09Base{"r", c09TuneRandomLen(11, 2*c09Fmt().blockSize), 11}, c09Base{"r", 5 << 20, 12})
 	}
 	for _, bs := range bases {
 		env := newC09Env(0)
@@ -490,7 +536,7 @@ func c09Lz4AlignedContent(seed uint64, maxRun int) ([]byte, int, int) {
 			c[3*65536+1000+i] = 0
 		}
 		for _, b := range c09Lz4Boundaries(c09Lz4Frame(c)) {
-			if b == storeBlockSize || b+4 == storeBlockSize {
+			if b == c09Fmt().blockSize || b+4 == c09Fmt().blockSize {
 				return c, run, b
 			}
 		}
@@ -516,7 +562,8 @@ func (o *c09Run) lz4align(seed uint64) {
 	if err != nil {
 		panic(err)
 	}
-	cut := storeHeaderLen + storeNonceLen + storeBlockSize + storeOverhead
+	fm := c09Fmt()
+	cut := fm.headerLen + fm.nonceLen + fm.blockSize + fm.overhead
 	if len(f) <= cut {
 		o.inc("lz4align.single-block")
 		return
@@ -754,6 +801,9 @@ func runC09Store(argv []string) int {
 	ids := fl.Int("ids", 1, "number of ids")
 	sem := fl.Bool("sem", false, "with store.WithSemaphore")
 	ms := fl.Int("ms", 3000, "probe duration (ms)")
+	good := fl.Int("good", 1, "aligned: number of sealed blocks in front of the coinciding boundary")
+	layout := fl.Int("layout", 0, "aligned: 0 tuned chunk first, 1 tuned chunk last, 2 mixed compressibility")
+	tail := fl.Int("tail", 100000, "aligned: pseudo-random bytes behind the boundary")
 	if err := fl.Parse(argv); err != nil {
 		return 2
 	}
@@ -776,10 +826,19 @@ func runC09Store(argv []string) int {
 	o := &c09Run{replayDir: *replayDir, seenClass: map[string]bool{}}
 	o.res.Stats = map[string]int{}
 	thorough := *tier == "thorough"
+	if fm := c09Fmt(); fm.fromSource {
+		o.inc("format.blockSize-and-header-from-source")
+		if fm.blockSize != storeBlockSize || fm.headerLen != storeHeaderLen || fm.nonceLen != storeNonceLen || fm.overhead != storeOverhead {
+			o.inc("format.differs-from-the-constants-of-d_store.go")
+		}
+	} else {
+		o.inc("format.source-not-recognised-using-harness-constants")
+	}
 	switch *cas {
 	case "":
 		o.roundtrips(thorough)
 		o.corruptions(thorough)
+		o.alignedSweeps(*seed, thorough)
 		o.lz4align(*seed)
 		o.craftswap(*seed)
 		nops := 150
@@ -803,6 +862,12 @@ func runC09Store(argv []string) int {
 		o.roundtrip(*kind, *length, *cseed)
 	case "corrupt":
 		o.corruptOne(*kind, *length, *cseed, *mut)
+	case "aligned":
+		if *layout < 0 || *layout >= len(c09AlignedLayouts) || *good < 1 {
+			fmt.Fprintln(os.Stderr, "bad -layout/-good")
+			return 2
+		}
+		o.alignedSweep(*cseed, *good, *layout, *tail, *mut)
 	case "lz4align":
 		o.lz4align(*cseed)
 	case "craftswap":
@@ -823,6 +888,7 @@ func runC09Store(argv []string) int {
 	o.res.Samples = []map[string]interface{}{
 		{"oracle": "c09store", "case": "roundtrip", "what": "Get(Set(b)) == b for lengths around 64 KiB / 256 KiB multiples, zeros/text/random/mixed"},
 		{"oracle": "c09store", "case": "corrupt", "what": "flip/truncate/drop/swap/dup/append/wrong passphrase on 1-5 block files: error or exact bytes"},
+		{"oracle": "c09store", "case": "aligned", "what": "the same sweep on contents built so that sealed block 1, 2 or 3 starts exactly where an LZ4 data block starts (mixed compressibility): a damaged later block must be an error, not a silent prefix"},
 		{"oracle": "c09store", "case": "conc+probe", "what": "8 goroutines Get/Set/Delete through WriteControlledStore; lock-table exclusion probe"},
 	}
 	if o.res.Violations == nil {
